@@ -86,6 +86,13 @@ func (r c05Root) text() string {
 		return "{\n" + r.Sites[0].render("\t", `"a": `, "") + "\n}"
 	case "item":
 		return "{\n\t\"arr\": [\n" + r.Sites[0].render("\t\t", "", "") + "\n\t]\n}"
+	case "property-under-type-like-key":
+		// a quoted key that spells a type name is an ordinary key, not a reference
+		return "{\n" + r.Sites[0].render("\t", `"@zz": `, "") + "\n}"
+	case "nested-under-type-like-key":
+		return "{\n\t\"@s\": {\n" + r.Sites[0].render("\t\t", `"in": `, "") + "\n\t}\n}"
+	case "item-in-item":
+		return "[\n\t[\n" + r.Sites[0].render("\t\t", "", "") + "\n\t]\n]"
 	case "two-properties":
 		return "{\n" + r.Sites[0].render("\t", `"a": `, ",") + "\n" + r.Sites[1].render("\t", `"b": `, "") + "\n}"
 	case "property-and-item":
@@ -253,7 +260,8 @@ func c05Roots() []c05Root {
 	sites := c05Sites()
 	var out []c05Root
 	for _, s := range sites {
-		out = append(out, c05Root{"root", []c05Site{s}}, c05Root{"property", []c05Site{s}}, c05Root{"item", []c05Site{s}})
+		out = append(out, c05Root{"root", []c05Site{s}}, c05Root{"property", []c05Site{s}}, c05Root{"item", []c05Site{s}},
+			c05Root{"property-under-type-like-key", []c05Site{s}}, c05Root{"nested-under-type-like-key", []c05Site{s}}, c05Root{"item-in-item", []c05Site{s}})
 	}
 	for _, a := range sites {
 		for _, b := range sites {
